@@ -160,6 +160,9 @@ def domain_pass(ctx, cases, impl, handlers, theorem, accepted=("Replaced", "Rewr
     return counts
 
 
+FUTURE_EPOCH = 4000000000          # later than the clock of any run of these checks: accepted with a warning, and an epoch like any other
+
+
 def cli_pass(ctx, cases, impl, handler, ext, max_good=8, max_bad=4, max_noop=3):
     """The same inputs through the command line: serial, -j1 and -j3, files the handler refuses listed first, a
     leftover temporary file (longer than the output) next to some inputs.  Every file must end up with the bytes
@@ -188,6 +191,11 @@ def cli_pass(ctx, cases, impl, handler, ext, max_good=8, max_bad=4, max_noop=3):
         for k in (min(with_epoch, key=lambda k: k[0]), max(with_epoch, key=lambda k: k[0])):
             if k not in groups:
                 groups.append(k)
+        # and an epoch later than today's date, if the check has written cases for it (the tool warns and uses it)
+        for k in sorted(with_epoch, key=lambda k: (k[0], k[1] or 0)):
+            if k[0] == FUTURE_EPOCH and k not in groups:
+                groups.append(k)
+                break
     problems = []
     nfiles = 0
     chosen_all = {}
@@ -211,13 +219,23 @@ def cli_pass(ctx, cases, impl, handler, ext, max_good=8, max_bad=4, max_noop=3):
             expect["00-garbage." + ext] = garbage
             inputs["00-garbage." + ext] = garbage
             for i, c in enumerate(bad + good + noop, 1):
-                rel = ("sub/" if i % 3 == 2 else "") + "%02d-%s.%s" % (i, c.cid.replace("/", "_")[:40], ext)
+                # every third file below a directory given as argument; every sixth below a directory whose name is not UTF-8 (Latin-1 e-acute)
+                rel = ("sub/d-\udce9/" if i % 6 == 5 else "sub/" if i % 3 == 2 else "") + "%02d-%s.%s" % (i, c.cid.replace("/", "_")[:40], ext)
                 t.add_file(rel, c.data, mtime_ns=(fmtime * 10**9 if fmtime is not None else 1700000000 * 10**9))
                 order.append(rel)
                 expect[rel] = impl[c.cid][1] if impl[c.cid][0] == "Replaced" else c.data
                 inputs[rel] = c.data
+            # a second name, which no handler claims, for the last modified input: listed before it, so the inode is seen first under
+            # the other name (not in the run with a size limit: a file with two names is rewritten in place)
+            changed = [r for r in order if expect[r] != inputs[r]]
+            if changed and not label.startswith("LIMIT"):
+                alias = "00-other-name-of-%s.bin" % os.path.basename(changed[-1])[:2]
+                t.link(changed[-1], alias)
+                order.insert(1, alias)
+                expect[alias] = expect[changed[-1]]
+                inputs[alias] = inputs[changed[-1]]
             stale = []
-            for rel in [r for r in order if expect[r] != open(t.path(r), "rb").read()][:2]:
+            for rel in [r for r in order if expect[r] != open(t.path(r), "rb").read() and not r.startswith("00-other-name")][:2]:
                 d, b = os.path.split(rel)
                 srel = os.path.join(d, ".#." + b + ".tmp")
                 t.add_file(srel, b"STALE-TEMPORARY-DATA " * ((len(expect[rel]) + 4096) // 21 + 1))
@@ -253,6 +271,7 @@ def cli_pass(ctx, cases, impl, handler, ext, max_good=8, max_bad=4, max_noop=3):
         ctx.oblige(name, True, "")
     else:
         label, why, order, out, gkey = problems[0]
+        why = why.encode("utf-8", "backslashreplace").decode()          # a name that is not UTF-8 is printed with escapes
         chosen = chosen_all[gkey]
         epoch, fmtime = gkey
         files = {}
